@@ -332,7 +332,9 @@ def big_exclusion_case(r, n, shape, pad=0):
 
 def long_word_case(r, n, how):
     """one bracketed exclusion word naming n odd numbers (its text is about 4n bytes): -x WORD or -w -WORD"""
-    tw = [("hosts", [("br", b"n", [(b"1", b"%d" % (2 * n + 2))], b"")]), ("hosts", [("plain", b"zz")])]
+    top = 2 * n + 2
+    rs = [(b"%d" % a, b"%d" % min(top, a + 15999)) for a in range(1, top + 1, 16000)]        # no single range above MAX_RANGE hosts
+    tw = [("hosts", [("br", b"n", rs, b"")]), ("hosts", [("plain", b"zz")])]
     word = ("excl", [("br", b"n", [(b"%d" % (2 * k + 1), None) for k in range(n)], b"")])
     return {"files": {}, "opts": [("w", tw), (how, [word])]}
 
